@@ -462,3 +462,139 @@ Proof.
   intros Hk. apply (proper_prefix_waits _ TShortConf); [|exact Hk].
   pose proof (decode_sc_frame []) as D. rewrite app_nil_r in D. exact D.
 Qed.
+
+(* ------------------------------------------------------------- the accept criterion *)
+
+Lemma strip_split b : is_byte b ->
+  0 <= strip b < 128 /\ b = strip b + (if negb (Z.land b 128 =? 0) then 128 else 0).
+Proof.
+  intros H.
+  pose proof (sweep256 (fun b => (0 <=? strip b) && (strip b <? 128) &&
+                                 (b =? strip b + (if negb (Z.land b 128 =? 0) then 128 else 0))) eq_refl b H) as S.
+  cbv beta in S. apply andb_prop in S. destruct S as [S S3]. apply andb_prop in S. destruct S as [S1 S2].
+  apply Z.leb_le in S1. apply Z.ltb_lt in S2. apply Z.eqb_eq in S3. split; [lia|exact S3].
+Qed.
+
+Definition raw_body (h : header) (fcbyte : Z) (pdu : bytes) : bytes :=
+  [h_da h + ext_of (h_dsap h); h_sa h + ext_of (h_ssap h); fcbyte] ++ sapl (h_dsap h) ++ sapl (h_ssap h) ++ pdu.
+
+Lemma frame_raw_unfold h fcbyte pdu :
+  frame_raw h fcbyte pdu =
+  (if Nat.eqb (length (raw_body h fcbyte pdu)) 3 then [SD1]
+   else if Nat.eqb (length (raw_body h fcbyte pdu)) 11 then [SD3]
+   else [SD2; Z.of_nat (length (raw_body h fcbyte pdu)); Z.of_nat (length (raw_body h fcbyte pdu)); SD2])
+  ++ raw_body h fcbyte pdu ++ [sum8 (raw_body h fcbyte pdu); ED].
+Proof. reflexivity. Qed.
+
+Lemma frame_raw_sd2_unfold h fcbyte pdu :
+  frame_raw_sd2 h fcbyte pdu =
+  [SD2; Z.of_nat (length (raw_body h fcbyte pdu)); Z.of_nat (length (raw_body h fcbyte pdu)); SD2]
+  ++ raw_body h fcbyte pdu ++ [sum8 (raw_body h fcbyte pdu); ED].
+Proof. reflexivity. Qed.
+
+Lemma raw_body_length h fcbyte pdu :
+  length (raw_body h fcbyte pdu) = (length (sapl (h_dsap h) ++ sapl (h_ssap h) ++ pdu) + 3)%nat.
+Proof. unfold raw_body. cbn [app length]. lia. Qed.
+
+Lemma Forall_app_l {A} (P : A -> Prop) a b : Forall P (a ++ b) -> Forall P a.
+Proof. intros H. apply Forall_app in H. tauto. Qed.
+Lemma Forall_app_r {A} (P : A -> Prop) a b : Forall P (a ++ b) -> Forall P b.
+Proof. intros H. apply Forall_app in H. tauto. Qed.
+
+Lemma wf_sap_of_bytes o : all_bytes (sapl o) -> wf_sap o.
+Proof. destruct o as [s|]; cbn; [|trivial]. intros H. inversion H. assumption. Qed.
+
+Lemma accept_criterion l h pdu n :
+  all_bytes l -> decode l = Ok (Accept (TData h pdu) n) ->
+  wf_header h /\ all_bytes pdu /\
+  exists fcbyte rest,
+    fc_from_byte fcbyte = Some (h_fc h) /\ is_byte fcbyte /\
+    ((nth 0 l 0 <> SD2 /\ l = frame_raw h fcbyte pdu ++ rest /\ n = length (frame_raw h fcbyte pdu)) \/
+     (nth 0 l 0 = SD2 /\ l = frame_raw_sd2 h fcbyte pdu ++ rest /\ n = length (frame_raw_sd2 h fcbyte pdu))).
+Proof.
+  intros Hb D. apply decode_view' in D. apply view_accept_data in D.
+  destruct D as (pre & da' & sa' & fcb & rest & Hsh & El & -> & Hfc & Hda & Hsa & Hd & Hs). cbv zeta in Hsh.
+  set (payload := sapl (h_dsap h) ++ sapl (h_ssap h) ++ pdu) in *.
+  assert (Hb2 : all_bytes (da' :: sa' :: fcb :: payload ++ sum8 (da' :: sa' :: fcb :: payload) :: ED :: rest)).
+  { rewrite El in Hb. exact (Forall_app_r _ _ _ Hb). }
+  pose proof (Forall_inv Hb2) as Bda. pose proof (Forall_inv (Forall_inv_tail Hb2)) as Bsa.
+  pose proof (Forall_inv (Forall_inv_tail (Forall_inv_tail Hb2))) as Bfc.
+  pose proof (Forall_inv_tail (Forall_inv_tail (Forall_inv_tail Hb2))) as Hb5.
+  clear Hb2. apply Forall_app_l in Hb5.
+  assert (Bd : all_bytes (sapl (h_dsap h))) by (exact (Forall_app_l _ _ _ Hb5)).
+  assert (Bs : all_bytes (sapl (h_ssap h))) by (exact (Forall_app_l _ _ _ (Forall_app_r _ _ _ Hb5))).
+  assert (Bp : all_bytes pdu) by (exact (Forall_app_r _ _ _ (Forall_app_r _ _ _ Hb5))).
+  destruct (strip_split da' Bda) as (Rda & Eda). destruct (strip_split sa' Bsa) as (Rsa & Esa).
+  rewrite <- Hda in *. rewrite <- Hsa in *. rewrite Hd in Eda. rewrite Hs in Esa.
+  assert (Eda' : da' = h_da h + ext_of (h_dsap h)) by (rewrite Eda at 1; destruct (h_dsap h); reflexivity).
+  assert (Esa' : sa' = h_sa h + ext_of (h_ssap h)) by (rewrite Esa at 1; destruct (h_ssap h); reflexivity).
+  split; [|split; [exact Bp|]].
+  { unfold wf_header, is_addr7. repeat split; try lia; apply wf_sap_of_bytes; assumption. }
+  exists fcb, rest. split; [exact Hfc|]. split; [exact Bfc|].
+  assert (Ebody : da' :: sa' :: fcb :: payload = raw_body h fcb pdu).
+  { unfold raw_body. rewrite Eda', Esa'. reflexivity. }
+  assert (Elen : length (raw_body h fcb pdu) = (length payload + 3)%nat) by apply raw_body_length.
+  assert (El2 : l = pre ++ (raw_body h fcb pdu ++ [sum8 (raw_body h fcb pdu); ED]) ++ rest).
+  { rewrite El. rewrite <- Ebody. cbn [app]. rewrite <- app_assoc. reflexivity. }
+  clear El. revert El2. remember (length payload) as n0 eqn:En0.
+  destruct Hsh as [ | |n1]; intros El2.
+  - left. rewrite frame_raw_unfold, Elen. cbn [Nat.add Nat.eqb].
+    split; [rewrite El2; cbn [app nth]; vm_compute; discriminate|].
+    split; [rewrite El2, !app_assoc; reflexivity|].
+    rewrite !app_length, Elen. cbn [length]. lia.
+  - left. rewrite frame_raw_unfold, Elen. cbn [Nat.add Nat.eqb].
+    split; [rewrite El2; cbn [app nth]; vm_compute; discriminate|].
+    split; [rewrite El2, !app_assoc; reflexivity|].
+    rewrite !app_length, Elen. cbn [length]. lia.
+  - right. rewrite frame_raw_sd2_unfold, Elen.
+    split; [rewrite El2; reflexivity|].
+    split; [rewrite El2, !app_assoc; reflexivity|].
+    rewrite !app_length, Elen. cbn [length]. lia.
+Qed.
+
+(* ------------------------------------------------------------- the extracted oracle agrees *)
+
+Lemma bytes_eqb_refl a : bytes_eqb a a = true.
+Proof. induction a as [|x a IH]; cbn [bytes_eqb]; [reflexivity|]. rewrite Z.eqb_refl, IH. reflexivity. Qed.
+
+Lemma is_byteb_of b : is_byte b -> is_byteb b = true.
+Proof. unfold is_byte, is_byteb. intros H. apply andb_true_intro. split; [apply Z.leb_le|apply Z.ltb_lt]; lia. Qed.
+
+Lemma all_bytesb_of l : all_bytes l -> all_bytesb l = true.
+Proof. intros H. apply forallb_forall. intros x Hx. apply is_byteb_of. exact (proj1 (Forall_forall _ _) H x Hx). Qed.
+
+Lemma wf_headerb_of h : wf_header h -> wf_headerb h = true.
+Proof.
+  intros (Hda & Hsa & Hd & Hs). unfold is_addr7 in *. unfold wf_headerb.
+  repeat (apply andb_true_intro; split); try (apply Z.leb_le; lia); try (apply Z.ltb_lt; lia).
+  - destruct (h_dsap h); [apply is_byteb_of, Hd|reflexivity].
+  - destruct (h_ssap h); [apply is_byteb_of, Hs|reflexivity].
+Qed.
+
+Lemma dec_oracle_ok l r : all_bytes l -> decode l = Ok r -> c10_dec_ok l (Some r) = true.
+Proof.
+  intros Hb D. destruct r as [ | |t n]; cbn [c10_dec_ok].
+  - apply Nat.ltb_lt, needmore_short, D.
+  - reflexivity.
+  - pose proof (accept_inside l t n D) as (Hn & Hneed & Ht).
+    apply andb_true_intro. split; [|apply Nat.eqb_eq, Hneed].
+    unfold accept_ok. apply andb_true_intro. split; [apply Nat.leb_le, Hn|].
+    destruct t as [h pdu|da sa| ].
+    + destruct (accept_criterion l h pdu n Hb D) as (Hwf & Hp & fcbyte & rest & Hfc & _ & Hcase).
+      rewrite (wf_headerb_of h Hwf), (all_bytesb_of pdu Hp). cbn [andb].
+      destruct Hcase as [(Hsd & El & En)|(Hsd & El & En)].
+      * destruct (Z.eqb_spec (nth 0 l 0) SD2) as [E|_]; [contradiction|].
+        assert (Efc : nth 3 l 0 = fcbyte).
+        { rewrite El, frame_raw_unfold. rewrite El, frame_raw_unfold in Hsd.
+          destruct (Nat.eqb (length (raw_body h fcbyte pdu)) 3); [reflexivity|].
+          destruct (Nat.eqb (length (raw_body h fcbyte pdu)) 11); [reflexivity|].
+          exfalso. apply Hsd. reflexivity. }
+        rewrite Efc, Hfc. unfold fcode_eqb. rewrite Z.eqb_refl. cbn [andb].
+        rewrite El at 1. rewrite firstn_app_exact by exact En. apply bytes_eqb_refl.
+      * rewrite Hsd, Z.eqb_refl.
+        assert (Efc : nth 6 l 0 = fcbyte) by (rewrite El, frame_raw_sd2_unfold; reflexivity).
+        rewrite Efc, Hfc. unfold fcode_eqb. rewrite Z.eqb_refl. cbn [andb].
+        rewrite El at 1. rewrite firstn_app_exact by exact En. apply bytes_eqb_refl.
+    + destruct Ht as (-> & ->). cbn [Nat.eqb andb]. apply bytes_eqb_refl.
+    + destruct Ht as (-> & ->). cbn [Nat.eqb andb]. apply bytes_eqb_refl.
+Qed.
